@@ -3,6 +3,10 @@
 mod common;
 mod c01;
 mod c02;
+mod c03;
+mod c04;
+mod c11;
+mod scripts;
 
 use std::path::PathBuf;
 use vpmodel::engine::{Engine, RunCfg};
@@ -30,7 +34,7 @@ pub struct PropDef {
 }
 
 fn props() -> Vec<PropDef> {
-    vec![c01::DEF, c02::DEF]
+    vec![c01::DEF, c02::DEF, c03::DEF, c04::DEF, c11::DEF, scripts::C05, scripts::C06, scripts::C16]
 }
 
 fn main() {
